@@ -8,6 +8,7 @@ RULE = ("correspondence: generated (translated) optimized-module add/double/neg/
         "secp256k1 jacobian_add/jacobian_double/from_jacobian executed by the driver vs the real functions on arbitrary "
         "(also off-curve) triples with random projective scalings, on every control path (generic, P=Q in different "
         "representatives, P=-Q, identity operands incl. (0,0,0)); predicates: real function vs textbook affine law through (x/z, y/z)")
+EXTRA_MODULES = {"Props.TieFieldsFq": "PyEcc.Tie.", "Props.TieFieldsFqp": "PyEcc.Tie.", "Props.TieFieldsMul": "PyEcc.Tie.", "Props.TieFieldsPoly": "PyEcc.Tie.", "Props.TieFieldsInv": "PyEcc.Tie."}
 HYPOTHESES = []
 NOT_YET_PROVED = []
 ASSUMPTIONS = []
